@@ -218,6 +218,7 @@ impl StrPair {
         }
         self.ensure(bump);
         let len = self.s.as_ref().unwrap().len();
+        crate::w2_ops::set_spare(self.b.as_ref().map(|b| b.capacity().saturating_sub(b.len())).unwrap_or(0));
         match op {
             SOp::IntoBumpStr => {
                 let b = self.b.take().unwrap();
